@@ -225,6 +225,7 @@ def templates(tier):
     T.append(("xmldecl-late", [2, "<?xml version='1.0'?>", 2, "<r/>", 2], None))
     T.append(("two-roots", ["<r", 2, ">", h, "<", 3, ">"], None))
     T.append(("attrs", ["<r a", 1, "=\"", 2, "\" ", 2, "='", 2, "'", 2, ">"], None))
+    T.append(("attrs-sep", ["<r a='x'", 2, "b=\"y\"", 2, "c='z'", 2, ">", 4], None))
     T.append(("pi-comment", ["<r><?", h, "?><!--", h, "--></r>"], None))
     T.append(("cdata", ["<r><![CDATA[", h, "]]>", h, "</r>"], None))
     if tier == "thorough":
@@ -239,7 +240,7 @@ def main(prop):
     rep = common.Report(args)
     if args.replay:
         return replay_case(args, rep)
-    N = {"quick": 12, "thorough": 18}[args.tier]
+    N = {"quick": 14, "thorough": 20}[args.tier]
     timeout_s = {"quick": 120, "thorough": 900}[args.tier]
     rep.bounds = {"free_mode_max_len": N, "alphabet": "all Unicode scalar values (21-bit)", "per_query_timeout_s": timeout_s,
                   "outside": "documents longer than N scalar values outside the template families; item construction beyond the reference checks; DOM views"}
